@@ -456,7 +456,11 @@ class Interp:
                 fs = [None] * (i + 1)
                 fs[i] = self.update(st, None, rest, val)
                 return TupleVal(fs)
-            # write into unknown aggregate: stays unknown
+            # write into unknown aggregate: materialise known struct types, else stays unknown
+            if isinstance(v, Top) and isinstance(v.ty, dict):
+                mv = self.materialise_struct(v)
+                if mv is not None:
+                    return self.update(st, mv, proj, val)
             return Top(getattr(v, "ty", None), deps_of(v) | deps_of(val))
         if p[0] == "d":
             if isinstance(v, AdtVal):
@@ -1189,6 +1193,12 @@ class Interp:
                         isinstance(x, AdtVal) and x.path == f0.path and x.variant == f0.variant for _d, x in v.alts):
                     return self.discriminant(st, f0)
                 raise NeedSplit(self.place_loc(st, fr, rv["discr"]))
+            if isinstance(v, Top) and isinstance(v.ty, dict) and v.ty.get("k") == "adt":
+                ch = self.materialise_enum(v)
+                if ch is not None:
+                    loc = self.place_loc(st, fr, rv["discr"])
+                    self.write_loc(st, loc, ch)
+                    raise NeedSplit(loc)
             return self.discriminant(st, v)
         if "aggregate" in rv:
             ag = rv["aggregate"]
@@ -1215,6 +1225,37 @@ class Interp:
             v = self.read_place(st, fr, rv["len"])
             return self.len_of(st, v)
         return Top(None)
+
+    def materialise_struct(self, v):
+        ty = v.ty
+        if ty.get("k") == "tuple":
+            return TupleVal([top_of(e, v.deps, v.tags) for e in ty["elems"]])
+        if ty.get("k") != "adt":
+            return None
+        adt = self.prog.adts.get(ty["path"])
+        if adt is None or adt["kind"] != "struct":
+            return None
+        vv = adt["variants"][0]
+        return AdtVal(ty["path"], 0, [top_of(f["ty"], v.deps, v.tags) for f in vv["fields"]], vname=vv["name"])
+
+    def materialise_enum(self, v):
+        """unknown enum value -> lazy choice over its variants (fields unknown, tags/deps inherited)"""
+        ty = v.ty
+        path = ty["path"]
+        targs = ty.get("args", [])
+        d, tags = v.deps, v.tags
+        if path == "core::option::Option":
+            return Choice([((), AdtVal(path, 0, [], vname="None")), ((), AdtVal(path, 1, [top_of(targs[0] if targs else None, d, tags)], vname="Some"))])
+        if path == "core::result::Result":
+            return Choice([((), AdtVal(path, 0, [top_of(targs[0] if targs else None, d, tags)], vname="Ok")),
+                           ((), AdtVal(path, 1, [top_of(targs[1] if len(targs) > 1 else None, d, tags)], vname="Err"))])
+        adt = self.prog.adts.get(path)
+        if adt is not None and adt["kind"] == "enum" and len(adt["variants"]) <= 16:
+            alts = []
+            for vv in adt["variants"]:
+                alts.append(((), AdtVal(path, vv["idx"], [top_of(f["ty"], d, tags) for f in vv["fields"]], vname=vv["name"])))
+            return Choice(alts)
+        return None
 
     def len_of(self, st, v):
         if isinstance(v, RefVal):
@@ -1418,6 +1459,9 @@ class Interp:
         if op == "not":
             return self.assume_bool(st, a, 1 - want)
         if op == "ovf":
+            return True
+        if isinstance(op, str) and op.startswith("dur_"):
+            st.pc.add_guard({"op": op, "want": want, "a": repr(a), "b": repr(b), "deps": frozenset()})
             return True
         if op in _NEG and not want:
             op = _NEG[op]
